@@ -93,7 +93,7 @@ def row_key(x: dict):
 
 
 def library(d: dict, r: dict, t: dict):
-    name = sge.sge_targeton_name(d['contig'], d['strand'], t)
+    name = sge.sge_targeton_name(t.get('contig', d['contig']), t.get('strand', d['strand']), t)
     rows = sge.all_meta_rows(r['files'], name)
     return collections.Counter(row_key(x) for x in rows)
 
@@ -207,6 +207,78 @@ def check_pair(ctx: Ctx, d, m, r1, r2):
                           {'surface': 'file', 'design': d, 'targeton': t, 'only_design': only_a, 'only_mirror': only_b})
 
 
+def run_two(args):
+    d, m = args
+    return sge.run_design(d), sge.run_design(m)
+
+
+def two_strand_pair(a: dict, b: dict):
+    """Two designs on opposite strands laid one after the other on one contig, and the mirror image of the whole: the mirrored second
+    design comes first.  -> (design, mirror image, [(index in the design, index in the mirror image)]) or None."""
+    from .. import merge
+    ma, mb = mirror(a), mirror(b)
+    if ma is None or mb is None:
+        return None
+    d = merge.merge_designs(a, b, True)
+    d['opts'] = dict(d['opts'], revcomp=True)
+    m = merge.merge_designs(mb, ma, True)
+    na, nb = len(a['targetons']), len(b['targetons'])
+    return d, m, [(i, nb + i) for i in range(na)] + [(na + j, j) for j in range(nb)]
+
+
+def two_strand_check(ctx: Ctx, d, m, pairs, r1, r2):
+    ctx.evaluations += 1
+    ctx.count('two_strand_pairs')
+    case = {'surface': 'file', 'kind': 'two_strands', 'design': d, 'mirror': m, 'pairs': [list(p) for p in pairs]}
+    if r1['exit'] != r2['exit']:
+        ctx.violation('spec_violation', f"two-strand design exits {r1['exit']} ({r1['exc']}) but its mirror image exits {r2['exit']} ({r2['exc']} {r2['exc_msg'][:60]})", case)
+        return
+    if r1['exit'] != 0:
+        ctx.count('two_strand_both_refused')
+        return
+    for i, j in pairs:
+        t, tm = d['targetons'][i], m['targetons'][j]
+        a, b = library(d, r1, t), library(m, r2, tm)
+        if a:
+            ctx.nontriv(('two_strands', common.sha(d), i))
+        if a != b:
+            only_a = list((a - b).elements())[:2]
+            only_b = list((b - a).elements())[:2]
+            ctx.violation('spec_violation',
+                          f"two strands: targeton {t['ref_start']}-{t['ref_end']} ({t.get('strand')}): rows only in the design {[(k[0], k[1][:30], k[2:7]) for k in only_a]}; "
+                          f"only in the mirror image {[(k[0], k[1][:30], k[2:7]) for k in only_b]}", dict(case, targeton_index=i))
+
+
+def two_strand_stage(ctx: Ctx):
+    """A gene on each strand of one contig, background variants around one of them only, next to the mirror image of the whole contig
+    (own generator state: the designs of explore stay what they were)."""
+    import random
+    rng = random.Random(f'C14-two-strands-{ctx.seed}')
+    n = ctx.n(16, 160)
+    jobs, tries = [], 0
+    while len(jobs) < n and tries < 30 * n:
+        tries += 1
+        a, b = make_design(rng, 2), make_design(rng, 0)
+        if a['strand'] == b['strand'] or not a.get('gtf') or not b.get('gtf') or not a.get('bg'):
+            continue
+        for x in (a, b):
+            x.pop('codon_table', None)
+            x.pop('vcfs', None)
+            for t in x['targetons']:
+                t['sgrna'] = ['sg1'] if t.get('sgrna') else []
+            for e in x.get('pam') or []:
+                e['sgrna'] = 'sg1'
+        b['opts'] = dict(a['opts'])
+        if rng.random() < 0.5:
+            a, b = b, a            # the gene with background variants first or second on the contig
+        tp = two_strand_pair(a, b)
+        if tp is not None:
+            jobs.append(tp)
+    res = pool_map(run_two, [(d, m) for d, m, _ in jobs], chunksize=2)
+    for (d, m, pairs), (r1, r2) in zip(jobs, res):
+        two_strand_check(ctx, d, m, pairs, r1, r2)
+
+
 def explore(ctx: Ctx):
     n = ctx.n(400, 5000)
     designs = [make_design(ctx.rng, i) for i in range(n)]
@@ -270,6 +342,7 @@ def model_tie(ctx: Ctx):
 def run(ctx: Ctx):
     explore(ctx)
     model_tie(ctx)
+    two_strand_stage(ctx)
     return {'rule': 'Metamorphic on the real tool: each random design (1-3 exons, every frame, regions starting/ending mid-codon and next to '
                     'junctions, PAM edits, custom SNV/MNV/insertions/deletions/delins, custom codon tables, no-op oligos, orientation-free '
                     'mutators) is run next to its mirror image (reference reverse-complemented, every coordinate, the strand, both vectors '
@@ -287,7 +360,11 @@ def replay(ctx: Ctx, path: str) -> int:
         print('replay: nothing to run (obligation-only replay file)')
         return 0
     common.use_repo()
-    check_pair(ctx, *run_pair(case['design']))
+    if case.get('kind') == 'two_strands':
+        r1, r2 = run_two((case['design'], case['mirror']))
+        two_strand_check(ctx, case['design'], case['mirror'], [tuple(p) for p in case['pairs']], r1, r2)
+    else:
+        check_pair(ctx, *run_pair(case['design']))
     if ctx.violations:
         print(f'VIOLATION property=C14 replay={path}')
         return 1
